@@ -22,8 +22,9 @@ Directives (each on its own line):
 
 Fixed rewrite rules applied to every copied item (DESIGN.md section 1.1):
   R0 comments removed; R1 log-macro statements removed; R2 format!(..) -> verif_fmt();
-  R3 visibility pub(crate)/pub(super) -> pub, attributes (#[derive], #[cfg_attr], #[non_exhaustive],
-     #[allow], #[repr], #[default], doc) removed; R4 struct projection.
+  R3 visibility pub(crate)/pub(super) -> pub, attributes removed except the unconditional derives
+     Copy/Clone/PartialEq/Eq/Default (+ Structural on field-less enums) and #[default]; R4 struct projection;
+  R8 wildcard parameters `_: T` renamed `_argN: T`.
 
 Exit codes used by callers: ExtractError => tool error (exit 2), never an alarm.
 """
@@ -541,6 +542,13 @@ def extract_fn(repo, rel, qualname, contract_lines, loops, ats, rewrites, stub=F
     sig = re.sub(r'\s+', ' ', sig).strip()
     head, ret, where = split_ret(sig)
     head = fix_vis(head)
+    # R8: Verus rejects `_` as a parameter name; rename to _argN (parameter is unused by definition)
+    cnt = [0]
+
+    def _ren(mm):
+        cnt[0] += 1
+        return '%s_arg%d:' % (mm.group(1), cnt[0])
+    head = re.sub(r'([(,]\s*)_\s*:', _ren, head)
     body = src[o:e + 1]
     rec = {'kind': 'fn', 'name': qualname, 'file': rel, 'lines': [line_of(src, m.start()), line_of(src, e)],
            'sha256': hashlib.sha256(src[m.start():e + 1].encode()).hexdigest(), 'props': props or [],
@@ -605,10 +613,19 @@ def extract_fn(repo, rel, qualname, contract_lines, loops, ats, rewrites, stub=F
             k = body.rstrip().rfind('}')
             body = body[:k] + ins + body[k:]
             continue
+        nth = None
         cnt = body.count(anchor)
-        if cnt != 1:
+        if ' @nth=' in anchor:
+            anchor, sel = anchor.rsplit(' @nth=', 1)
+            nth, total = [int(x) for x in sel.split('/')]
+            cnt = body.count(anchor)
+            if cnt != total:
+                raise ExtractError("anchor %r occurs %d times in %s (template expects %d)" % (anchor, cnt, qualname, total))
+        elif cnt != 1:
             raise ExtractError("anchor %r occurs %d times in %s (need exactly 1)" % (anchor, cnt, qualname))
-        ai = body.find(anchor)
+        ai = -1
+        for _ in range(nth or 1):
+            ai = body.find(anchor, ai + 1)
         if where_ == 'before':
             ls = body.rfind('\n', 0, ai) + 1
             body = body[:ls] + ins + body[ls:]
